@@ -63,6 +63,19 @@ def classify(schema, doc):
     return undefined, uncastable
 
 
+def vary(x):
+    """A document of another shape over the same keys: at every level the last item is dropped and lists are reversed."""
+    if isinstance(x, dict):
+        ks = list(x)
+        if len(ks) >= 2:
+            ks = ks[:-1]
+        return {k: vary(x[k]) for k in ks}
+    if isinstance(x, list):
+        xs = x[:-1] if len(x) >= 2 else x
+        return [vary(v) for v in reversed(xs)]
+    return x
+
+
 def body(case):
     doc, schema, wrap = case
     out = Outcome()
@@ -85,6 +98,13 @@ def body(case):
         sobj = build.build_schema(schema)
     except Exception as e:
         out.exc("build-schema", e)
+        return out
+    # the same schema has validated a document of another shape before, and that result was thrown away
+    try:
+        sobj.validate(vary(doc))
+        sobj.validate(vary(vary(doc)))
+    except Exception as e:
+        out.exc("validate-raised|earlier-document", e)
         return out
     data = ns.da.Data(doc) if wrap else doc
     try:
